@@ -267,7 +267,14 @@ def element_parsing(
             # Do not repeat structural elements if they are being added to the same part.
             if not same_part:
                 part.add(element, start=current_tl_pos)
-                line2pos[doc_lines[i]] = current_tl_pos
+                # only a line this spine places exactly may fix the position of the
+                # later spines of the part: a barline or its own spine split. Any other
+                # interpretation line (e.g. the "*" beside another spine's "*^") may sit
+                # inside a note still sounding here, of which only the end is known.
+                if isinstance(element, spt.Measure) or (
+                    isinstance(element, KernElement) and element.voice_start
+                ):
+                    line2pos[doc_lines[i]] = current_tl_pos
             else:
                 if isinstance(element, spt.Measure):
                     current_tl_pos = measure_mapping[element.number]
